@@ -55,14 +55,21 @@ def parseGroup (t : Text) : Option ((Nat × Nat) × Text) :=
     | _ => none
   | _ => none
 
-/-- `(\(\d+,\d+\))+` to the end of the text -/
+/-- the whitespace the validator's `\s*` lets through between two groups once the blanks are
+removed (tab, carriage return, vertical tab, form feed; Unicode spaces are outside the model) -/
+def isWs (c : Char) : Bool := c = '\t' || c = '\r' || c = '\x0b' || c = '\x0c'
+
+/-- `(\(\d+,\d+\)\s*)+` to the end of the text (the validator's shape of a job line; the mapper's
+`re.findall` then collects exactly these groups) -/
 def parseOpsF : Nat → Text → Option (List (Nat × Nat))
   | 0, _ => none
   | f + 1, t =>
     match parseGroup t with
     | none => none
-    | some (g, []) => some [g]
-    | some (g, rest) => (parseOpsF f rest).map (g :: ·)
+    | some (g, rest) =>
+      match rest.dropWhile isWs with
+      | [] => some [g]
+      | rest' => (parseOpsF f rest').map (g :: ·)
 
 def parseOps (t : Text) : Option (List (Nat × Nat)) := parseOpsF t.length t
 
